@@ -18,7 +18,7 @@ import (
 const Scale = 60
 
 // Pt is one input point of the model alphabet: time T (model seconds), field
-// x of kind K ("int", "float", "str", "none" = field missing) with value V,
+// x of kind K ("int", "float", "str", "bool", "none" = field missing) with value V,
 // a non-group tag h=H and a second field i (position, int) that identifies it.
 type Pt struct {
 	T int
@@ -125,8 +125,14 @@ func MkPoint(g string, p Pt) imodels.Point {
 
 func encPt(p Pt) rt.M {
 	v := p.V
-	if p.K == "float" {
+	switch p.K {
+	case "float":
 		v *= Scale
+	case "bool":
+		v = 0
+		if p.V > 0 {
+			v = 1
+		}
 	}
 	return rt.M{"t": p.T, "k": p.K, "v": v, "h": p.H, "i": p.I}
 }
@@ -272,6 +278,11 @@ func DecodeInBatch(b edge.BufferedBatchMessage) (Batch, error) {
 		case string:
 			p.K = "str"
 			fmt.Sscanf(x, "s%d", &p.V)
+		case bool:
+			p.K = "bool"
+			if x {
+				p.V = 1
+			}
 		}
 		out.Pts = append(out.Pts, p)
 	}
